@@ -32,7 +32,7 @@ EXC_TYPES = [Boom, TypeError, ValueError, KeyError, AttributeError, RecursionErr
 
 
 def bounds(tier, seed):
-    return {'load_cases': len(load_cases()), 'dump_cases': len(dump_cases()), 'exception_types': [t.__name__ for t in EXC_TYPES], 'fault_points': 'every invocation index of every case'}
+    return {'fault_sequences': 'single faults' if tier == 'quick' else 'single faults + every ordered pair (i, j) of fault points with the custom exception', 'load_cases': len(load_cases()), 'dump_cases': len(dump_cases()), 'exception_types': [t.__name__ for t in EXC_TYPES], 'fault_points': 'every invocation index of every case'}
 
 
 class Env:
@@ -263,7 +263,7 @@ def is_prefix(a, b):
     return len(a) <= len(b) and b[:len(a)] == a
 
 
-def check_case(T, case):
+def check_case(T, case, pairs=False):
     global REFERENCE
     if REFERENCE is None:
         REFERENCE = reference_call()
@@ -309,19 +309,37 @@ def check_case(T, case):
                 T.violation('faults', 'global-state-changed', cs, detail='library-global state differs after the failed call')
                 snap0 = c11.snap_digest(c11.global_snapshot(subclasses=False))
             T.outcome((e0.kinds[i], type(exc).__name__ if exc else None))
+    if pairs:
+        # fault sequences of length two (thorough): the call fails at i, the retry fails at j, then the third call must succeed
+        for i in range(N):
+            for j in range(N):
+                T.evaluations += 1
+                T.nontrivial += 1
+                cs = {'case': list(case), 'fail_at': [i, j], 'kind': [e0.kinds[i], e0.kinds[j]], 'exception': 'Boom'}
+                e1 = Env(i, Boom)
+                _, x1 = r.run(e1)
+                e2 = Env(j, Boom)
+                got2, x2 = r.run(e2)
+                if x2 is None or x2 is not e2.raised:
+                    T.violation('fault-sequences', 'second-fault-not-passed-through', cs, detail='after a first failed call (invocation %d) the retry failing at invocation %d gave %r' % (i, j, x2))
+                elif not is_prefix(got2, base):
+                    T.violation('fault-sequences', 'delivered-not-a-prefix', cs, detail='retry delivered %.200r; fault-free run delivers %.200r' % (got2, base))
+                nxt, exc3 = r.run(Env())
+                if exc3 is not None or nxt != base:
+                    T.violation('fault-sequences', 'next-call-affected', cs, detail='after two failed calls the same case fault-free gives %.200r (exception %r); baseline %.200r' % (nxt, exc3, base))
     T.sample('faults', {'case': list(case), 'invocations': N, 'kinds': sorted(set(e0.kinds))})
 
 
 def plan(tier, seed):
-    return [('case', c) for c in load_cases() + dump_cases()]
+    return [('case', c, tier != 'quick') for c in load_cases() + dump_cases()]
 
 
 def run_job(job, T):
-    check_case(T, job[1])
+    check_case(T, job[1], pairs=job[2])
 
 
 def replay(sub, case, T):
-    check_case(T, tuple(case['case']))
+    check_case(T, tuple(case['case']), pairs=isinstance(case.get('fail_at'), list))
 
 
 def snippet(sub, case):
